@@ -17,7 +17,7 @@ import (
 	. "vh/vhlib"
 )
 
-var gens = map[string]GenFn{"SrcTokens": genSrcTokens, "HealthOps": genHealthOps, "LBTokens": genLBTokens, "HealthLoop": genHealthLoop, "RRTokens": genRRTokens, "HealthStoreOps": genHealthStoreOps, "SubsetTokens": genSubsetTokens, "HostSetTokens": genHostSetTokens, "CriteriaTokens": genCriteriaTokens, "HealthXferTokens": genHealthXferTokens, "HealthLifecycleTokens": genHealthLifecycleTokens}
+var gens = map[string]GenFn{"SrcTokens": genSrcTokens, "HealthOps": genHealthOps, "LBTokens": genLBTokens, "HealthLoop": genHealthLoop, "RRTokens": genRRTokens, "HealthStoreOps": genHealthStoreOps, "SubsetTokens": genSubsetTokens, "HostSetTokens": genHostSetTokens, "CriteriaTokens": genCriteriaTokens, "HealthXferTokens": genHealthXferTokens, "HealthLifecycleTokens": genHealthLifecycleTokens, "HostUpdateTokens": genHostUpdateTokens}
 
 // genSrcTokens: literal tokens / constants at named sites.
 //
@@ -977,6 +977,35 @@ func genHealthLifecycleTokens(repo string) (string, error) {
 		b.WriteString("Definition stop_mode : stop_shape := StopClears.\nDefinition HealthLifecycleTokens_translator_ok := true.\n")
 	default:
 		b.WriteString("(* healthChecker.stopCheck: text not recognised *)\nDefinition stop_mode : stop_shape := StopKeeps.\nDefinition HealthLifecycleTokens_translator_ok := false.\n")
+	}
+	return b.String(), nil
+}
+
+// ---------------------------------------------------------------------------
+// genHostUpdateTokens: does NewSimpleHostHandler (the full host update) build EVERY host object from the new config?
+//
+//	ReuseNever          : hosts = NewSimpleHost(hc, info) for every config (the text in the tree)
+//	ReuseIfLabelsSubset : the object of an address is kept when hostConfigUnchanged(host.Config(), hc)
+//
+// Any other text => not ok.
+const updHandlerTail = "\tns := NewHostSet(hosts)\n\tif snap.ClusterInfo().SlowStart().Mode != \"\" {\n\t\ttransferHostSetStates(snap.HostSet(), ns)\n\t}\n\tc.UpdateHosts(ns)\n}"
+const updHandlerNever = "{\n\tsnap := c.Snapshot()\n\thosts := make([]types.Host, 0, len(hostConfigs))\n\tfor _, hc := range hostConfigs {\n\t\thosts = append(hosts, NewSimpleHost(hc, snap.ClusterInfo()))\n\t}\n" + updHandlerTail
+const updHandlerReuse = "{\n\tsnap := c.Snapshot()\n\tcurrent := make(map[string]types.Host, snap.HostSet().Size())\n\tsnap.HostSet().Range(func(host types.Host) bool {\n\t\tcurrent[host.AddressString()] = host\n\t\treturn true\n\t})\n\thosts := make([]types.Host, 0, len(hostConfigs))\n\tfor _, hc := range hostConfigs {\n\t\tif host, ok := current[hc.Address]; ok && hostConfigUnchanged(host.Config(), hc) {\n\t\t\thosts = append(hosts, host)\n\t\t\tcontinue\n\t\t}\n\t\thosts = append(hosts, NewSimpleHost(hc, snap.ClusterInfo()))\n\t}\n" + updHandlerTail
+
+func genHostUpdateTokens(repo string) (string, error) {
+	txt, err := funcText(repo, "pkg/upstream/cluster/cluster_manager.go", "", "NewSimpleHostHandler")
+	if err != nil {
+		return "", err
+	}
+	var b strings.Builder
+	b.WriteString("From MV Require Import Model.HostUpdate.\n")
+	switch normText(txt) {
+	case normText(updHandlerNever):
+		b.WriteString("Definition reuse_mode : reuse_shape := ReuseNever.\nDefinition HostUpdateTokens_translator_ok := true.\n")
+	case normText(updHandlerReuse):
+		b.WriteString("Definition reuse_mode : reuse_shape := ReuseIfLabelsSubset.\nDefinition HostUpdateTokens_translator_ok := true.\n")
+	default:
+		b.WriteString("(* NewSimpleHostHandler: text not recognised *)\nDefinition reuse_mode : reuse_shape := ReuseNever.\nDefinition HostUpdateTokens_translator_ok := false.\n")
 	}
 	return b.String(), nil
 }
